@@ -105,6 +105,26 @@ TEXT = {
         "note": COMMON_NOTE,
         "technique": "Lean 4 proof (induction over source lists, frame lemmas); differential correspondence",
     },
+    "C19": {
+        "level": "Theorems about the lock map as a small-step machine with one step per map-mutex section and per channel operation, for ANY number of goroutines, keys and steps "
+                 "(induction over schedules): the invariant refcount = goroutines between ++ and --, entry present iff refcount > 0, slot full iff exactly one owner; hence mutual "
+                 "exclusion; Lock fails only after cancellation and then owns nothing; a free key can always be acquired by a waiter (no lost wake-up at the level of the machine); the "
+                 "holder can always unlock; other keys are untouched; stray unlock panics without changing state; quiescent map is empty. Tied to the code by running the real "
+                 "TransientLockMap through schedules that take EVERY transition of the machine's reachable graph for 2x2x2, 3x2x1 and 3 goroutines x 2 keys x 2 rounds with "
+                 "cancellation (the configuration the property names), comparing program counter, refcount and slot after every step, plus random walks with 2-6 goroutines in "
+                 "which waiters really block in the select; a go/types fact checks that locks/refcount are only touched under the map mutex.",
+        "note": COMMON_NOTE + " Go runtime primitives (mutex, channel, select) are assumed to follow the Go memory model; scheduler fairness is not modelled.",
+        "technique": "Lean 4 proof (invariant by induction over schedules, countP arithmetic); transition-covering schedule replay of the real lock map against the machine",
+    },
+    "C06": {
+        "level": "Theorem (generic one-lock machine, any number of goroutines, any interleaving): at most one request is inside its critical section, the shared state is the sequential "
+                 "run of the requests in critical-section order, every response is that run's response, the order respects real time, each request is linearised once; N increments add "
+                 "exactly N; failure atomicity of MutateRow / MutateRows entry / CheckAndMutateRow / ReadModifyWriteRow on the sequential Model. Tied to the code by running 2-4 real "
+                 "concurrent requests parked at the repository's yield points through every interleaving (stateless DFS, incl. attempts to enter while another request is inside) and "
+                 "replaying each run on the Lean machine instantiated with the sequential Bigtable Model; a disagreement is then decided by searching all serial orders.",
+        "note": COMMON_NOTE + " sync.RWMutex semantics are assumed; fairness is not modelled; preemption is explored at the yield points only.",
+        "technique": "Lean 4 proof (one-lock linearizability theorem by invariant over schedules); exhaustive interleaving replay of the real RPCs against the machine",
+    },
 }
 
 NOT_APPLICABLE = {("C%02d" % i): "check not built yet in this session (work in progress; see DESIGN.md section 8)" for i in range(1, 21)}
